@@ -62,7 +62,7 @@ def run(tier, seed, t0):
     if rc != 0 or len(impl_tags) != n:
         raise C.Violation(PROP, "harness tags run failed", impl[-2000:], False)
     nsess = 500 if tier == "quick" else 30000
-    rows = L.run_stream("client", seed, nsess)
+    rows = L.run_stream("client", seed, nsess, prop=PROP)
     for sess, obs, ref in rows:
         bad = match_oracle(sess, obs, ref)
         if bad:
